@@ -136,6 +136,13 @@ def rule_match(ctx):
     ctx.ob(R, fi, fi.node, len(pop) == 1, f"{len(pop)} pops per frame", text="one-pop")
     from ..rulekit import none_tests
     st_ = none_tests(c, cid)
+    if not st_:
+        # a truthiness test is not an anchor loss but a defect: 0 is a legitimate correlation id (the counter wraps to it), None is the SASL marker
+        tr = [t for t in c.nodes if t.kind == "test" and isinstance(t.ast, ast.Name) and t.ast.id == cid]
+        if tr:
+            ctx.ob(R, fi, tr[0], False, f"the SASL pass-through is selected by the truthiness of `{cid}`, not by `{cid} is None`: the request that carries correlation id 0 "
+                                        "(after the counter wrapped) is answered with the raw frame and its id is never compared", text="sasl-iff-none")
+            return
     ctx.anchor(len(st_) == 1, "`correlation_id is None` (SASL) test")
     sasl, SASL_T, SASL_F = st_[0]   # labels meaning `is None` (SASL packet) / `is not None` (a Kafka reply)
     ctests = [t for t in c.nodes if t.kind == "test" and "response_header.correlation_id" in unparse(t.ast)]
@@ -421,5 +428,7 @@ def run(ctx):
     # fixed-width primitives read exactly their width through struct (short read -> ValueError), shared with C11
     from . import c11
     c11.rule_codec_symmetry(ctx)
+    from .common import rule_instance_state
+    rule_instance_state(ctx, ("aiokafka.conn.",))
     rep.nd("byte-stream fragmentation (delegated to asyncio.StreamReader.readexactly)")
     rep.nd("ordering of timeouts relative to arrivals beyond the structural rule that abandoned requests are still popped")
